@@ -200,6 +200,9 @@ impl Exec for Ex {
             let tag = if sh.reloaded { "C17" } else { "C10" };
             sh.v(tag, "cmdline-mismatch", format!("step {} started with command {:?}, the manifest says {:?}", uid, info.cmdline, cmd));
         }
+        if info.showincludes != (step.deps == 2 || step.deps == 3) {
+            sh.v("C09", "showincludes-flag", format!("step {} has deps = msvc: {}, but n2 will{} scan its output for /showIncludes notes", uid, step.deps >= 2, if info.showincludes { "" } else { " not" }));
+        }
         if info.rspfile != proj.rsp_of(&step) {
             sh.v("C10", "rsp-mismatch", format!("step {} rspfile {:?}, the manifest says {:?}", uid, info.rspfile, proj.rsp_of(&step)));
         }
